@@ -80,6 +80,9 @@ func (r *reg) A(b []byte) *kref { return r.K("a", b) }
 func (r *reg) S(s string) *kref { return r.K("s", []byte(s)) }
 func (r *reg) H(b []byte) *kref { return r.K("h", b) }
 
+// Val: validator-keyed collections use ValAddressKeyEncoder = the bech32 STRING, so that is the order
+func (r *reg) Val(v sdk.ValAddress) *kref { return r.K("v", []byte(v.String())) }
+
 // V: opaque value id
 func (r *reg) V(s string) int {
 	if v, ok := r.vals[s]; ok {
@@ -251,24 +254,24 @@ func dumpState(ctx sdk.Context, a *app.NibiruApp, r *reg) map[string]interface{}
 		o["rates"] = rates
 		fd := J{}
 		for _, kv := range k.FeederDelegations.Iterate(ctx, collections.Range[sdk.ValAddress]{}).KeyValues() {
-			fd = append(fd, J{r.A(kv.Key), r.A(kv.Value)})
+			fd = append(fd, J{r.Val(kv.Key), r.A(kv.Value)})
 		}
 		o["feeders"] = fd
 		mc := J{}
 		for _, kv := range k.MissCounters.Iterate(ctx, collections.Range[sdk.ValAddress]{}).KeyValues() {
-			mc = append(mc, J{r.A(kv.Key), kv.Value})
+			mc = append(mc, J{r.Val(kv.Key), kv.Value})
 		}
 		o["miss"] = mc
 		pv := J{}
 		for _, kv := range k.Prevotes.Iterate(ctx, collections.Range[sdk.ValAddress]{}).KeyValues() {
 			v := kv.Value
-			pv = append(pv, J{r.A(kv.Key), r.A(valBytes(v.Voter)), r.P(&v)})
+			pv = append(pv, J{r.Val(kv.Key), r.Val(valBytes(v.Voter)), r.P(&v)})
 		}
 		o["prevotes"] = pv
 		vs := J{}
 		for _, kv := range k.Votes.Iterate(ctx, collections.Range[sdk.ValAddress]{}).KeyValues() {
 			v := kv.Value
-			vs = append(vs, J{r.A(kv.Key), r.A(valBytes(v.Voter)), r.P(&v)})
+			vs = append(vs, J{r.Val(kv.Key), r.Val(valBytes(v.Voter)), r.P(&v)})
 		}
 		o["votes"] = vs
 		o["pairs"] = r.pairs(k.WhitelistedPairs.Iterate(ctx, collections.Range[asset.Pair]{}).Keys())
@@ -483,24 +486,24 @@ func parseExport(appState []byte, cdc codec.Codec, r *reg) (map[string]interface
 		o["rates"] = rates
 		fd := J{}
 		for _, d := range s.FeederDelegations {
-			fd = append(fd, J{r.A(valBytes(d.ValidatorAddress)), r.A(accBytes(d.FeederAddress))})
+			fd = append(fd, J{r.Val(valBytes(d.ValidatorAddress)), r.A(accBytes(d.FeederAddress))})
 		}
 		o["feeders"] = fd
 		mc := J{}
 		for _, m := range s.MissCounters {
-			mc = append(mc, J{r.A(valBytes(m.ValidatorAddress)), m.MissCounter})
+			mc = append(mc, J{r.Val(valBytes(m.ValidatorAddress)), m.MissCounter})
 		}
 		o["miss"] = mc
 		pv := J{}
 		for _, v := range s.AggregateExchangeRatePrevotes {
 			v := v
-			pv = append(pv, J{r.A(valBytes(v.Voter)), r.P(&v)})
+			pv = append(pv, J{r.Val(valBytes(v.Voter)), r.P(&v)})
 		}
 		o["prevotes"] = pv
 		vs := J{}
 		for _, v := range s.AggregateExchangeRateVotes {
 			v := v
-			vs = append(vs, J{r.A(valBytes(v.Voter)), r.P(&v)})
+			vs = append(vs, J{r.Val(valBytes(v.Voter)), r.P(&v)})
 		}
 		o["votes"] = vs
 		rw := J{}
@@ -578,7 +581,7 @@ func tables(e1, e2 map[string]interface{}, s1, s2 map[string]interface{}, r *reg
 		md := tfd.DefaultBankMetadata()
 		tfp = append(tfp, J{r.S(d), r.S(tfd.Creator), r.V("str:" + tfd.Subdenom), r.P(&md)})
 	}
-	return map[string]interface{}{"tfparse": tfp}
+	return map[string]interface{}{"tfparse": tfp, "empty_code": r.V("code:")}
 }
 
 // ---------------------------------------------------------------- sampled queries
@@ -625,7 +628,11 @@ func runQueries(ctx sdk.Context, a *app.NibiruApp, r *reg, q queryPlan) J {
 			cq = hex.EncodeToString(resp.Code)
 		}
 		out = append(out, r.V("codeq:"+cq))
-		sq := "err"
+		sq := "codeless" // eth_getStorageAt of an account without bytecode: on the exception list
+		if cq == "" || cq == "err" {
+			out = append(out, r.V("storq:"+sq))
+			continue
+		}
 		if resp, err := a.EvmKeeper.Storage(ctx, &evm.QueryStorageRequest{Address: s.Hex(), Key: gethcommon.BigToHash(big.NewInt(1)).Hex()}); err == nil {
 			sq = resp.Value
 		}
